@@ -4,10 +4,12 @@ from fractions import Fraction
 from vlib.coqlit import *
 
 ID = "C20"
-COQ_PROPS = "Props/C20.v"
+COQ_PROPS = ["Props/C20.v", "Props/C20hdr.v"]
 THEOREMS = ["C20_tm_same", "C20_tm_h", "C20_tm_hm", "C20_tm_hms",
-            "C20_tm_src_is_model", "C20_tm_src_same", "C20_tm_src_hms", "C20_tm_src_hm", "C20_tm_src_h"]
-TABLES = ["t_time"]
+            "C20_tm_src_is_model", "C20_tm_src_same", "C20_tm_src_hms", "C20_tm_src_hm", "C20_tm_src_h",
+            "C20_hdr_slice_axis", "C20_hdr_freq_phase", "C20_hdr_directions", "C20_hdr_tr", "C20_hdr_slice_times", "C20_hdr_rel_times"]
+TABLES = ["t_time", "t_stack", "t_conv"]
+COQ_EXTRA_TARGETS = ["Conv/CorrGeom.vo"]
 ALLOWED_AXIOMS = []
 TRUSTED_BASE = ["tools/tables/t_time.py: statement-by-statement translator of the two TM functions into Gallina (fail-closed outside its vocabulary); Common/PyOps.v as the meaning of the translated primitives",
                 "Common/F64.v `fl` as the model of IEEE binary64 round-to-nearest-even (Python float(), int+float)",
@@ -145,4 +147,7 @@ class Tm:
             yield {"kind": case["kind"], "s": s[:i] + s[i + 1:]}
 
 
-PARTS = [Tm]
+from props import convlib
+PARTS = [Tm, convlib.HeaderPart]
+TRUSTED_BASE = TRUSTED_BASE + ['header half: hand models coq/Stack/Model.v, coq/Orient/Model.v, coq/Conv/Geom.v, coq/Conv/Header.v tied to DicomStack.to_nifti by the header correspondence part; the DicomWrapper geometry is a contract (definitions), nibabel header encoders are outside (the ARGUMENT handed to set_slice_times is what is modelled)']
+ASSUMPTIONS = ASSUMPTIONS + ['header half: dyadic geometry so that float arithmetic is exact; accepted stacks; classic single-frame datasets']
